@@ -161,7 +161,8 @@ errcode_t ext2fs_open2(const char *name, const char *io_options, int flags, int 
 	vf_nopens++;
 	/* try_open_fs() probes the block size of a -b superblock given without -B with throw-away opens on the plain unix manager.
 	 * Every real open fails here (ERR); a probe fails too unless its block size is the query's PROBE_K one (1024 << PROBE_K),
-	 * in which case the NEXT call is the real open that try_open_fs makes with the block size it found. */
+	 * in which case the NEXT call is the real open that try_open_fs makes with the block size it found.
+	 * (No PROBE_K query is registered for THIS harness -- symex does not finish; the hit case is decided by probe_try_open.c.) */
 	is_probe = vf_ctx.superblock && !vf_ctx.blocksize && !vf_after_probe;
 	if (is_probe) {
 		PROP(manager == unix_io_manager, "block-size probe of try_open_fs uses the plain unix manager");
